@@ -44,12 +44,15 @@ pub enum Ev {
     /// learn the new address from the next membership view they are handed
     #[serde(rename = "move")]
     Move { t: u64, node: u8 },
+    /// the node's next bulk put with more than k documents is applied to k of them and fails
+    #[serde(rename = "partial_bulk")]
+    PartialBulk { t: u64, node: u8, k: u32 },
 }
 
 impl Ev {
     pub fn t(&self) -> u64 {
         match self {
-            Ev::Op { t, .. } | Ev::Hold { t, .. } | Ev::Release { t, .. } | Ev::Crash { t, .. } | Ev::Restart { t, .. } | Ev::View { t, .. } | Ev::Replay { t, .. } | Ev::ClockJump { t, .. } | Ev::Move { t, .. } => *t,
+            Ev::Op { t, .. } | Ev::Hold { t, .. } | Ev::Release { t, .. } | Ev::Crash { t, .. } | Ev::Restart { t, .. } | Ev::View { t, .. } | Ev::Replay { t, .. } | Ev::ClockJump { t, .. } | Ev::Move { t, .. } | Ev::PartialBulk { t, .. } => *t,
         }
     }
 }
@@ -178,7 +181,7 @@ fn validate(sc: &Scenario) -> Result<(), String> {
         let ok = match e {
             Ev::Op { node, spec, .. } => ids.contains(node) && !spec.ids.is_empty(),
             Ev::Hold { a, b, .. } | Ev::Release { a, b, .. } => ids.contains(a) && ids.contains(b) && a != b,
-            Ev::Crash { node, .. } | Ev::Restart { node, .. } | Ev::ClockJump { node, .. } | Ev::Move { node, .. } => ids.contains(node),
+            Ev::Crash { node, .. } | Ev::Restart { node, .. } | Ev::ClockJump { node, .. } | Ev::Move { node, .. } | Ev::PartialBulk { node, .. } => ids.contains(node),
             Ev::View { node, members, .. } => ids.contains(node) && members.iter().all(|m| ids.contains(m)),
             Ev::Replay { from, .. } => ids.contains(from),
         };
@@ -294,6 +297,12 @@ pub fn run_cluster(sc: &Scenario, prop: &str) -> Result<RunResult, String> {
                 // the address changed: peers are told left+joined by the next view, no flap needed
                 ever_restarted.remove(node);
                 out.fault("node_moved_to_another_address");
+            },
+            Ev::PartialBulk { node, k, .. } => {
+                if let Some(st) = cl.shared.borrow().stores.get(node) {
+                    st.st.lock().arm_partial_bulk = Some(*k);
+                }
+                out.fault("bulk_write_armed_to_fail_partway");
             },
             Ev::ClockJump { node, delta_ms, .. } => {
                 *cl.clock_jumps.borrow_mut().entry(*node).or_insert(0) += delta_ms;
@@ -418,7 +427,7 @@ pub fn run_cluster(sc: &Scenario, prop: &str) -> Result<RunResult, String> {
         let up_now: Vec<u8> = cl.shared.borrow().up.iter().copied().collect();
         let base_id = 1_000_000usize;
         for (i, n) in up_now.iter().enumerate() {
-            cl.send_cmd(*n, Cmd::Op { op_id: base_id + i, spec: OpSpec { kind: "put".into(), ks: "zz-probe".into(), ids: vec![*n as u64], level: "None".into(), dup: false } });
+            cl.send_cmd(*n, Cmd::Op { op_id: base_id + i, spec: OpSpec { kind: "put".into(), ks: "zz-probe".into(), ids: vec![*n as u64], level: "None".into(), dup: false, empty: false } });
         }
         // one batch interval (1 s) plus transport; far below any repair interval used with it
         let t = cl.elapsed_ms();
@@ -456,9 +465,10 @@ pub fn run_cluster(sc: &Scenario, prop: &str) -> Result<RunResult, String> {
         // every cycle polls every member and re-syncs what changed; after the faults stopped
         // each cycle is a completed exchange with every peer. Give it six cycles.
         // a fetch that fails (injected document-read failure on the peer) stalls that poller for
-        // its 5 s progress timeout before the next cycle retries: every configured read failure
-        // may still lie ahead, so each one extends the window
-        let read_faults: u64 = sc.cfg.nodes.iter().map(|n| n.storage_read_faults.len() as u64).sum();
+        // its 5 s progress timeout before the next cycle retries, and so does a store failure while
+        // a repair exchange is applied: every configured failure may still lie ahead, so each one
+        // extends the window
+        let read_faults: u64 = sc.cfg.nodes.iter().map(|n| (n.storage_read_faults.len() + n.storage_faults.len()) as u64).sum();
         let t = cl.elapsed_ms();
         step(&mut cl, t + 6 * sc.cfg.repair_interval_ms + 8_000 + 6_000 * read_faults)?;
         out.probe("closing_by_background_poller");
@@ -753,7 +763,7 @@ pub fn gen_cluster_scenario(rng: &mut rand::rngs::SmallRng, k: &GenKnobs) -> Sce
         }
         idv.dedup();
         let level = if rng.gen_bool(k.level_bias_none) { "None" } else { levels[rng.gen_range(0..levels.len())] };
-        events.push(Ev::Op { t, node: *ids.choose(rng).unwrap(), spec: OpSpec { kind: kind.to_string(), ks: kss.choose(rng).unwrap().clone(), ids: idv, level: level.to_string(), dup: kind.ends_with("many") && kind.starts_with("put") && rng.gen_bool(0.15) } });
+        events.push(Ev::Op { t, node: *ids.choose(rng).unwrap(), spec: OpSpec { kind: kind.to_string(), ks: kss.choose(rng).unwrap().clone(), ids: idv, level: level.to_string(), dup: kind.ends_with("many") && kind.starts_with("put") && rng.gen_bool(0.15), empty: kind.starts_with("put") && rng.gen_bool(0.12) } });
     }
     // fault kinds: a random subset per run (swarm)
     let f_hold = rng.gen_bool(0.5);
@@ -809,7 +819,7 @@ pub fn gen_cluster_scenario(rng: &mut rand::rngs::SmallRng, k: &GenKnobs) -> Sce
                 for _ in 0..rng.gen_range(2..=5) {
                     let kind = ["put", "put_many", "del"].choose(rng).unwrap();
                     let level = ["All", "Quorum", "EachQuorum", "One", "Two"].choose(rng).unwrap();
-                    events.push(Ev::Op { t: back + rng.gen_range(10..700), node: *peers.choose(rng).unwrap(), spec: OpSpec { kind: kind.to_string(), ks: kss.choose(rng).unwrap().clone(), ids: vec![rng.gen_range(0..nids)], level: level.to_string(), dup: false } });
+                    events.push(Ev::Op { t: back + rng.gen_range(10..700), node: *peers.choose(rng).unwrap(), spec: OpSpec { kind: kind.to_string(), ks: kss.choose(rng).unwrap().clone(), ids: vec![rng.gen_range(0..nids)], level: level.to_string(), dup: false, empty: false } });
                 }
             }
         }
@@ -883,8 +893,16 @@ pub fn gen_burst_scenario(rng: &mut rand::rngs::SmallRng) -> Scenario {
         let w = *writers.choose(rng).unwrap();
         let ks = kss.choose(rng).unwrap().clone();
         for _ in 0..rng.gen_range(2..=6) {
-            let kind = if rng.gen_bool(0.75) { "put" } else { "del" };
-            events.push(Ev::Op { t, node: w, spec: OpSpec { kind: kind.to_string(), ks: ks.clone(), ids: vec![rng.gen_range(0..nids)], level: "None".to_string(), dup: false } });
+            let kind = match rng.gen_range(0..20) {
+                0..=12 => "put",
+                13..=16 => "del",
+                17..=18 => "put_many",
+                _ => "del_many",
+            };
+            let mut idv: Vec<u64> = (0..if kind.ends_with("many") { rng.gen_range(2..=3) } else { 1 }).map(|_| rng.gen_range(0..nids)).collect();
+            idv.sort();
+            idv.dedup();
+            events.push(Ev::Op { t, node: w, spec: OpSpec { kind: kind.to_string(), ks: ks.clone(), ids: idv, level: "None".to_string(), dup: false, empty: kind.starts_with("put") && rng.gen_bool(0.1) } });
             t += rng.gen_range(0..4);
         }
         t += rng.gen_range(100..2_500);
@@ -898,6 +916,32 @@ pub fn gen_burst_scenario(rng: &mut rand::rngs::SmallRng) -> Scenario {
         for p in &ids {
             if *p != w && !writers.contains(p) {
                 events.push(Ev::View { t: mt + rng.gen_range(20..600), node: *p, members: ids.clone() });
+            }
+        }
+    }
+    // a writer's last word on a keyspace is a bulk put that its store applies part-way: the
+    // documents that were written must still travel
+    if rng.gen_bool(0.35) {
+        let w = *writers.choose(rng).unwrap();
+        let ks = kss.choose(rng).unwrap().clone();
+        // (every other operation is earlier: nothing touches the keyspace on this writer afterwards)
+        let tt = t + rng.gen_range(1_500..4_000);
+        let mut idv: Vec<u64> = (0..nids.min(3)).collect();
+        idv.truncate(rng.gen_range(2..=3).min(idv.len()));
+        if idv.len() >= 2 {
+            events.push(Ev::PartialBulk { t: tt, node: w, k: rng.gen_range(1..idv.len() as u32) });
+            events.push(Ev::Op { t: tt + 2, node: w, spec: OpSpec { kind: "put_many".to_string(), ks, ids: idv, level: "None".to_string(), dup: false, empty: false } });
+        }
+    }
+    // storage trouble while the data moves by anti-entropy only: a writer's bulk write applied
+    // part-way, a puller's store failing in the middle of applying a repair exchange
+    let mut cfg = cfg;
+    if rng.gen_bool(0.5) {
+        for n in cfg.nodes.iter_mut() {
+            if rng.gen_bool(0.6) {
+                for _ in 0..rng.gen_range(1..=3) {
+                    n.storage_faults.push((rng.gen_range(1..30), rng.gen_range(0..3)));
+                }
             }
         }
     }
@@ -956,7 +1000,7 @@ pub fn gen_real_scenario(rng: &mut rand::rngs::SmallRng) -> Scenario {
         idv.sort();
         idv.dedup();
         let level = if rng.gen_bool(0.4) { "None" } else { levels[rng.gen_range(0..levels.len())] };
-        events.push(Ev::Op { t, node: *ids.choose(rng).unwrap(), spec: OpSpec { kind: kind.to_string(), ks: kss.choose(rng).unwrap().clone(), ids: idv, level: level.to_string(), dup: kind.ends_with("many") && kind.starts_with("put") && rng.gen_bool(0.15) } });
+        events.push(Ev::Op { t, node: *ids.choose(rng).unwrap(), spec: OpSpec { kind: kind.to_string(), ks: kss.choose(rng).unwrap().clone(), ids: idv, level: level.to_string(), dup: kind.ends_with("many") && kind.starts_with("put") && rng.gen_bool(0.15), empty: kind.starts_with("put") && rng.gen_bool(0.12) } });
     }
     if rng.gen_bool(0.6) {
         for _ in 0..rng.gen_range(1..=2) {
